@@ -126,13 +126,13 @@ TABLE = {
             "Scheduling model read off CommandManager (newest request first, one generator step per tick, commands orphaned "
             "by _stop_interpreter); calls outside the domain have only the tabulated effects (evidence.call_model); timed waits "
             "are nondeterministic. set_error_state from a stopped engine breaks the invariant but is outside the property's "
-            "quantifier (recorded by the thorough tier as observation). The execution order of the commands due in one tick (newest first / appended / stable sort by a name predicate) is extracted from CommandManager.execute_commands, not assumed; an unrecognised reordering exits 2."),
+            "quantifier (recorded by the thorough tier as observation). The execution order of the commands due in one tick (newest first / appended / stable sort by a name predicate) is extracted from CommandManager.execute_commands, not assumed; an unrecognised reordering exits 2. Gating written as a module-level lookup table keyed by command is evaluated as well; (R06d) the invariant is also explored with two user requests per tick gap."),
     "C07": ("abstract interpretation of update_calculated_tags over System State + sibling rule and model check for the Block/Scope Time gate + run-start sibling agreement",
             "Which System States let Process/Run Time advance is computed by interpreting update_calculated_tags for every "
             "state; the Block/Scope Time gate table is extracted from tags_impl and every site that leaves Running must emit a "
             "closing signal (confirmed on the extracted run-state machine with faults); Start and the last segment of "
             "Restart must perform the same resets.",
-            "Numeric increments and threshold timing are not decided. Hold and the error pause emit no signal today (open known findings). Also decided (R07d): the emit_* methods the clock gate depends on reach their fan-out loop on every path (delivery is unconditional), which is the call model the machine uses."),
+            "Numeric increments and threshold timing are not decided. Hold and the error pause emit no signal today (open known findings). Also decided (R07d): the emit_* methods the clock gate depends on reach their fan-out loop on every path (delivery is unconditional), which is the call model the machine uses. R07a also reports every write of a run clock other than the per-tick increment and the reset at run start."),
     "C08": ("reachability/ordering on the extracted run-state machine with ghost variables for output tags and hardware + structural pause-site rule",
             "Ghost variables follow whether the output tags hold live or safe values and what was last written to the "
             "hardware; engine start, every completing Stop and every pause state are checked; every pause site must apply the "
@@ -145,13 +145,13 @@ TABLE = {
             "same generator segment; Pause must not capture over an outstanding capture; writers of _prev_state are "
             "enumerated; on the extracted machine (with error pauses) no reachable Unpause restores a capture from an "
             "earlier run, an already-undone pause, or safe values captured during a pause.",
-            "Decides that a capture cannot outlive its pause; equality of the restored tag values is value-level and not decided. Also decided (R09e): _apply_safe_state captures the pre-value of every safe-valued write register on every loop path, before overwriting it, and returns exactly that collection; _apply_state restores every captured tag unconditionally (the call model the machine uses)."),
+            "Decides that a capture cannot outlive its pause; equality of the restored tag values is value-level and not decided. Also decided (R09e): _apply_safe_state captures the pre-value of every safe-valued write register on every loop path, before overwriting it, and returns exactly that collection; _apply_state restores every captured tag unconditionally (the call model the machine uses). The machine also reports a pause that ends with the applied safe values left in place (nothing restored)."),
     "C10": ("ordered must-call sets on the CFGs of Stop/Restart + class-hierarchy walk of on_stop overrides",
             "Stop._run and Restart._run must call cancel_all_commands(self.name) -> tracking.disable -> emit_on_stop -> "
             "clear_run_id -> _stop_interpreter in dominance order (Restart then, after a yield, set_run_id -> enable -> "
             "emit_on_start); the cancel chain down to _finalize_command is checked link by link; every Tag subclass "
             "overriding on_stop must reach super().on_stop() on all paths (that is what ends simulations).",
-            "Decides the clean-up structure; completeness of the run log at every stop point and UOD callback behaviour are not decided. Also decided (R10d): in _execute_uod_command every path from the acquisition of the instance to a raising exit finalizes it, and _finalize_command marks the request done on every path - Stop can only cancel what is still an executing request."),
+            "Decides the clean-up structure; completeness of the run log at every stop point and UOD callback behaviour are not decided. Also decided (R10d): in _execute_uod_command every path from the acquisition of the instance to a raising exit finalizes it, and _finalize_command marks the request done on every path - Stop can only cancel what is still an executing request. (R10e): cancel_all_commands is called in the generator segment that ends the run, not only before a wait."),
     "C11": ("lifecycle typestate rules on the CFG of CommandManager._execute_uod_command",
             "Both cancel loops must dominate instance creation and every execute(); creation only without an existing "
             "instance; initialize only when not initialised and before execute; finalize only through guarded sites; from "
@@ -163,7 +163,7 @@ TABLE = {
             "disable that check; flags are set only when offered; cancel_instruction and force_instruction must both "
             "reject unknown ids and track known ones; every waiting loop of a cancellable/forcible instruction must read "
             "the flag (directly or via its helper); Pause/Hold.cancel must run the inverse command.",
-            "Decides the reject-or-apply structure; tick-exact timing of the effect is not decided."),
+            "Decides the reject-or-apply structure; tick-exact timing of the effect is not decided. Also decided (R12d): an accepted cancel of a command instance finalizes it before returning. (R12e): on the request-state model shared with C04 a cancelled Watch/Alarm never invokes its body and a forced one never returns to the same yield unchanged."),
     "C13": ("error-discipline rules on Engine.tick (handler completeness, must-call), failure-marking rules on the interpreter "
             "and command manager, and a class-hierarchy-resolved exception-escape audit of the unprotected part of the tick",
             "The interpreter tick and the command tick must sit in try bodies with a catch-all whose every handler reaches "
@@ -231,7 +231,7 @@ TABLE = {
             "Every node class the parser can emit has a visit_<Class> on PInterpreter's MRO, every interpreter command and "
             "engine command name has a handler/class; child_index is incremented once, after the child's generator; completed "
             "nodes are never dispatched; started is set only after the threshold wait; trailing blank/comment lines are never passed.",
-            "Exactly-once and ordering for arbitrary nestings and timings are runtime properties and not decided. The blank/comment rule follows `yield from self.<helper>(node)` delegation and has an instance floor (it once passed vacuously on a refactoring)."),
+            "Exactly-once and ordering for arbitrary nestings and timings are runtime properties and not decided. The blank/comment rule follows `yield from self.<helper>(node)` delegation and has an instance floor (it once passed vacuously on a refactoring). Also decided (R02c): every normal end of a macro invocation increments the finished counter that guards the body reset, and the reset is recursive."),
     "C03": ("constant-table agreement (duration units/multipliers) and data-flow orientation of the threshold comparison",
             "The unit list of the duration regexes, the units and folded multipliers of get_duration_end and the groups used by "
             "Wait/Pause/Hold must agree; the threshold comparison must be '<'(scope clock, node.threshold) with the clock "
@@ -243,7 +243,7 @@ TABLE = {
             "or a true condition and never for a cancelled node; a cancelled Watch leaves the wait loop before trying to "
             "activate; Watch completion and the Alarm re-arm sequence post-dominate the body; every block_ended = True is "
             "followed by _abort_block_interrupts on all paths.",
-            "Tick-exact interleavings of condition, cancel, force and End block are not decided. Also decided (R04d): every self.visit(child) in _visit_children is dominated by the un-weakened false outcome of _is_in_ended_block(child)."),
+            "Tick-exact interleavings of condition, cancel, force and End block are not decided. Also decided (R04d): every self.visit(child) in _visit_children is dominated by the un-weakened false outcome of _is_in_ended_block(child). Also decided (R04e): on the request-state model of Watch/Alarm (opstatic/condnode.py: boolean request/activation attributes, user cancel/force possible at every yield and accepted exactly when the class' own cancellable/forcible holds, fresh generators from every reachable state) the body is never invoked with the cancel flag set."),
     "C05": ("sibling agreement of the two End-block visitors + lock acquire/release pairing on the CFG of visit_BlockNode",
             "End block and End blocks must perform the same per-block effect set and write the Block tag; the lock-acquired "
             "branch must announce the block before the body; every normal exit releases the lock; completion after the body is "
@@ -254,7 +254,7 @@ TABLE = {
             "program tree) or the merge must consult the injected-node registry; inject_node may not write method progress; "
             "injected interrupts advance only through PInterpreter.tick under the started/not-paused/holding/stopping guard.",
             "Exactly-once execution of arbitrary snippets is not decided. R14a is violated today (injected nodes are not in the "
-            "tree and are dropped by a merge): open known finding."),
+            "tree and are dropped by a merge): open known finding. (R14d) one loop-free call site per link of the resolved inject call chain; (R14e) the id generator of the inject parser is never re-created or reset."),
     "C41": ("dominance of the invocation by the undefined/recursion tests, ownership of the macro table, validation raises for started macros",
             "The macro body invocation must be dominated by the undefined-macro raise and by the recursion test on "
             "macro_calling_macro's result, lie on no cycle, and be followed by the completion counter; ProgramNode.macros is "
